@@ -255,6 +255,14 @@ let exec toks =
         [ s_res s_z (chen_formula c ws); s_res s_n (get_gap c ws); s_n (high_card ws);
           s_res s_b (is_connector c ws); s_b (is_pocket_pair ws); s_b (is_suited ws);
           s_res s_b (is_suited_connector c ws) ]
+  | "twotext" -> (
+      match hand_from_index (nat_of_int 2) (nums ()) with
+      | None -> "Err"
+      | Some ws ->
+          String.concat " "
+            [ s_res s_z (chen_formula c ws); s_res s_n (get_gap c ws); s_n (high_card ws);
+              s_res s_b (is_connector c ws); s_b (is_pocket_pair ws); s_b (is_suited ws);
+              s_res s_b (is_suited_connector c ws) ])
   | "sortp" ->
       let ws = List.tl (nums ()) in
       let s = sort_desc ws in
